@@ -1,22 +1,84 @@
 import RsomeV.L.LpDualWeak
+import RsomeV.L.LpDualStrong
+import RsomeV.L.ConeDualWeak
+import RsomeV.L.ExpCone
 
 /-! # C08 — `do_math(primal=False)` is a true dual
 
-Property theorems (helper lemmas live in `RsomeV/L/`). -/
+Property theorems about the order-faithful model of the three `do_math(primal=False)` layers
+(`LinProg.dual`, `ConeProg.socDual`, `ConeProg.coneDual`).  Helper lemmas live in `RsomeV/L/`.
+The model is tied to rsome's code by the correspondence check of `harness/props/c08.py`. -/
 
 namespace RsomeV.C08
 open Finset RsomeV
 variable {K : Type} [Field K] [LinearOrder K] [IsStrictOrderedRing K]
 
-/-- **LP weak duality of the model of `lp.Model.do_math(primal=False)`**, for every bound
-pattern per variable (free, `≥0`, `≤0`, finite lower, finite upper, both, fixed and the overlaps
-the code's index tests create): every dual-feasible `y` bounds every primal-feasible `x`.
-The dual's objective is `min (-augB)·y`, so this reads `-(dual objective) ≤ primal objective`. -/
+/-- **LP weak duality** of the model of `lp.Model.do_math(primal=False)`, for every bound pattern per
+variable (free, `≥0`, `≤0`, finite lower, finite upper, both, fixed and the overlaps the code's index
+tests create): the value `-(dual objective)` of every dual-feasible `y` is below the objective of every
+primal-feasible `x`. -/
 theorem lp_dual_weak (P : LinProg K) (x y : ℕ → K) (hx : P.Feas x) (hy : P.dual.Feas y) :
     - P.dual.obj y ≤ P.obj x := by
   have h := LinProg.dual_weak P x y hx hy
   have : P.dual.obj y = - ∑ i ∈ range P.augNr, P.augB i * y i := by
     simp [LinProg.obj, LinProg.dual, Finset.sum_neg_distrib]
   rw [this]; simpa using h
+
+/-- non-vacuity: `min x₀ s.t. x₀ ≥ 1` written with a finite lower bound; the dual point `y = (-1)`
+is feasible for the model's dual and attains the primal optimum `1`. -/
+example : let P : LinProg ℚ := { nr := 0, nc := 1, a := fun _ _ => 0, b := fun _ => 0, eq := fun _ => false,
+                                 ub := fun _ => none, lb := fun _ => some 1, c := fun _ => 1 }
+    P.augNr = 1 ∧ P.dual.obj (fun _ => -1) = -1 := by
+  decide +kernel
+
+/-- **LP strong duality (no gap, dual attainment)**: every lower bound `γ` of the primal objective over
+a non-empty primal feasible set is matched by a dual-feasible point — Farkas' lemma, proved by
+Fourier–Motzkin elimination in `RsomeV/L/Farkas.lean`, over every linear ordered field. -/
+theorem lp_dual_strong (P : LinProg K) (γ : K) (hfeas : ∃ x, P.Feas x)
+    (hbd : ∀ x, P.Feas x → γ ≤ P.obj x) :
+    ∃ y, P.dual.Feas y ∧ γ ≤ - P.dual.obj y :=
+  LinProg.dual_strong P γ hfeas hbd
+
+/-- **optimal values are negatives of each other**: if the primal attains its optimum at `xs`, the
+model's dual attains the value `-(dual objective) = P.obj xs`, and no dual point does better. -/
+theorem lp_dual_value (P : LinProg K) (xs : ℕ → K) (hxs : P.Feas xs)
+    (hopt : ∀ x, P.Feas x → P.obj xs ≤ P.obj x) :
+    ∃ y, P.dual.Feas y ∧ - P.dual.obj y = P.obj xs ∧
+      ∀ y', P.dual.Feas y' → - P.dual.obj y' ≤ - P.dual.obj y :=
+  LinProg.dual_strong_attained P xs hxs hopt
+
+/-- **SOC weak duality, general layout** (one extra dual column per cone position). -/
+theorem soc_dual_weak (P : ConeProg K) (E : K → K → K → Prop) (hwf : P.WF)
+    (x w : ℕ → K) (hx : P.Feas E x) (hw : P.socDual2.Feas E w) :
+    - P.socDual2.lp.obj w ≤ P.lp.obj x :=
+  ConeProg.socDual2_weak P E hwf x w hx hw
+
+/-- **SOC weak duality, compact layout**: under the test `compactOk` the (repaired) code performs —
+every cone column is a `±1` (head: `+1`) column stored in one row of its own — and zero cost on cone
+columns (true of every program formulated with `obj=True`, where only the epigraph column is costed). -/
+theorem soc_layout1_weak (P : ConeProg K) (E : K → K → K → Prop) (hwf : P.WF)
+    (hok : P.compactOk = true) (hc : ∀ q ∈ P.qmat, ∀ j ∈ q, P.lp.c j = 0)
+    (x w : ℕ → K) (hx : P.Feas E x) (hw : P.socDual1.Feas E w) :
+    - P.socDual1.lp.obj w ≤ P.lp.obj x :=
+  ConeProg.socDual1_weak P E hwf hok hc x w hx hw
+
+/-- **Weak duality of the whole model of `gcp.Model.do_math(primal=False)`**: LP layer, whichever
+SOC layout the code selects, and the exponential-cone block, for any cone predicate `E` with the
+exponential-cone pairing property. -/
+theorem cone_dual_weak (P : ConeProg K) (E : K → K → K → Prop) (hE : ExpPair E) (hwf : P.WF)
+    (hc  : P.rowsRemoved = true → ∀ q ∈ P.qmat, ∀ j ∈ q, P.lp.c j = 0)
+    (hxq : P.rowsRemoved = true → ∀ e ∈ P.xmat, ∀ j ∈ e, j ∉ P.eye)
+    (x w : ℕ → K) (hx : P.Feas E x) (hw : P.coneDual.Feas E w) :
+    - P.coneDual.lp.obj w ≤ P.lp.obj x :=
+  ConeProg.coneDual_weak P E hE hwf hc hxq x w hx hw
+
+/-- the instance the solvers see: over `ℝ` with the closed exponential cone
+`{a₂·exp(a₀/a₂) ≤ a₁, a₂ > 0} ∪ {a₂ = 0, a₀ ≤ 0, a₁ ≥ 0}` -/
+theorem exp_dual_weak (P : ConeProg ℝ) (hwf : P.WF)
+    (hc  : P.rowsRemoved = true → ∀ q ∈ P.qmat, ∀ j ∈ q, P.lp.c j = 0)
+    (hxq : P.rowsRemoved = true → ∀ e ∈ P.xmat, ∀ j ∈ e, j ∉ P.eye)
+    (x w : ℕ → ℝ) (hx : P.Feas realExpCone x) (hw : P.coneDual.Feas realExpCone w) :
+    - P.coneDual.lp.obj w ≤ P.lp.obj x :=
+  ConeProg.coneDual_weak P realExpCone realExpCone_pair hwf hc hxq x w hx hw
 
 end RsomeV.C08
